@@ -63,6 +63,7 @@ class Oracle:
     def __init__(self, ctx, t, B, d, m):
         self.ctx, self.t, self.B, self.d, self.m = ctx, t, B, d, m
         self.n_calls = 0
+        self.ref_cache = {}
 
     _geo = {}
 
@@ -106,9 +107,22 @@ class Oracle:
             v = float(ap @ zp) / (1.0 + np.linalg.norm(ap) + np.linalg.norm(zp))
             worst = max(worst, v)
         ctx.num("optimal:variational-inequality", worst, tp, tf, key=f"{label}:{t}:not-nearest:variational-inequality", info=info)
-        # --- optimality: independent SDP
-        if want_sdp:
-            x, status = refopt.nearest_physical_sdp(t, B, d, m, a)
+        # --- optimality: independent references, computed once per input and shared by every form / order
+        # (want_sdp=False only means "do not *compute* the SDP for this input": cached solutions are always used)
+        ck = a.tobytes()
+        refs = self.ref_cache.get(ck)
+        if refs is None:
+            refs = {}
+            if want_sdp:
+                refs["sdp"] = refopt.nearest_physical_sdp(t, B, d, m, a)[0]
+            if refopt.n_stack(t, d, m) <= 300:
+                xr, its, conv = self.geometry().dykstra(a, tol=1e-26, max_iter=60000)
+                refs["dykstra"] = xr if conv else None
+            if len(self.ref_cache) > 8:
+                self.ref_cache.clear()
+            self.ref_cache[ck] = refs
+        if "sdp" in refs:
+            x = refs["sdp"]
             if x is None:
                 ctx.skip("optimal:sdp-distance")
             else:
@@ -120,14 +134,12 @@ class Oracle:
                 # ... and, the nearest point being unique, must coincide with it
                 ctx.num("optimal:sdp-point", float(np.linalg.norm(p - x)), tp + 2e-5 * (1 + an), tf + 2e-3 * (1 + an),
                         key=f"{label}:{t}:not-nearest:differs-from-sdp-solution", info=info)
-        # --- optimality: independent high-accuracy Dykstra (small configurations; no solver accuracy floor)
-        if want_sdp and refopt.n_stack(t, d, m) <= 300:
-            G = self.geometry()
-            xr, its, conv = G.dykstra(a, tol=1e-26, max_iter=60000)
-            if not conv:
+        # independent high-accuracy Dykstra (small configurations; no solver accuracy floor)
+        if "dykstra" in refs:
+            if refs["dykstra"] is None:
                 ctx.skip("optimal:reference-dykstra-point")
             else:
-                ctx.num("optimal:reference-dykstra-point", float(np.linalg.norm(p - xr)), tp, tf,
+                ctx.num("optimal:reference-dykstra-point", float(np.linalg.norm(p - refs["dykstra"])), tp, tf,
                         key=f"{label}:{t}:not-nearest:differs-from-reference-dykstra", info=info)
         # --- physical input is a fixed point
         eq_a, ineq_a = refopt.violations(t, B, d, m, a)
